@@ -38,6 +38,7 @@ independently), and the returned chord path reaches the optimum of a DP over tho
 of what was added; chord likelihood unchanged under transposition.
 """
 import itertools
+import json
 import math
 import os
 import struct
@@ -404,6 +405,12 @@ PARAM_SETS = [
     {'key_change_prob': 0.0, 'chord_change_prob': 0.5, 'chord_pitch_out_of_key_prob': 0.01, 'chord_note_concentration': 100.0},
     {'key_change_prob': 0.001, 'chord_change_prob': 1.0, 'chord_pitch_out_of_key_prob': 0.0, 'chord_note_concentration': 0.0},
     {'key_change_prob': 0.5, 'chord_change_prob': 0.1, 'chord_pitch_out_of_key_prob': 0.5, 'chord_note_concentration': 250.0},
+    # the far ends of the documented ranges: the key all but forced to change under a held chord (then the same chord
+    # symbol must NOT be written again: "consecutive chord symbols differ"), the chord all but forced to change / to stay
+    {'key_change_prob': 0.99, 'chord_change_prob': 0.01, 'chord_pitch_out_of_key_prob': 0.01, 'chord_note_concentration': 100.0},
+    {'key_change_prob': 0.99, 'chord_change_prob': 0.5, 'chord_pitch_out_of_key_prob': 0.2, 'chord_note_concentration': 20.0},
+    {'key_change_prob': 0.1, 'chord_change_prob': 0.99, 'chord_pitch_out_of_key_prob': 0.01, 'chord_note_concentration': 100.0},
+    {'key_change_prob': 0.999, 'chord_change_prob': 0.001, 'chord_pitch_out_of_key_prob': 0.05, 'chord_note_concentration': 50.0},
 ]
 N_BASE_PARAM_SETS = len(PARAM_SETS)
 # The history family: the cube {key_change_prob} x {chord_change_prob} x {chord_pitch_out_of_key_prob} around the
@@ -1620,6 +1627,21 @@ def run(chk):
                                                              'NC' if any(a.text == 'N.C.' for a in anns) else 'noNC',
                                                              'keychange' if len({i // C0 for i in path}) > 1 else 'onekey']))
 
+    # the far ends of the parameter ranges (PARAM_SETS[6:N_BASE]), judged by the statement's oracle on the real code only (no
+    # model tables are shipped for them in the quick tier): optimality against the independent dynamic program and the
+    # well-formedness clauses, in particular "consecutive chord symbols differ" when the key moves under a held chord
+    rng_x = chk.subrng('chords-extremes')
+    for i in range(chk.n(36, 400)):
+        d, hist = gen_chord_case(rng_x, nparams, False)
+        d['params'] = 6 + i % (N_BASE_PARAM_SETS - 6)
+        d['add_key_signatures'] = bool(i % 2)
+        res = run_chords(d, cache)
+        o = oracle_chords(np, d, res)
+        chk.count('oracle-chords', None)
+        chk.count('chords-extremes', json.dumps(d, sort_keys=True, default=str)[:2000], res['err'] is None,
+                  ['params:%d' % d['params'], 'err' if res['err'] is not None else 'ok'])
+        if o:
+            fail_once(o, d)
     for i in range(chk.n(60, 1700)):
         d, hist = gen_chord_case(rng, nparams, chk.thorough)
         res = run_chords(d, cache)
